@@ -101,7 +101,26 @@ func TestVerifC12Sig(t *testing.T) {
 	r := rand.New(rand.NewSource(int64(seed)*32452843 + 12))
 	now := time.Now()
 	incep, expir := uint32(now.Add(-time.Hour).Unix()), uint32(now.Add(time.Hour).Unix())
-	for c := 0; c < n; c++ {
+	// fixed shapes from corpus/C12/sig.json (minimal inputs of seeded changes the check caught), replayed first
+	type vC12SigPlan struct {
+		Mode  int     `json:"mode"`
+		K     uint32  `json:"K"`
+		Rl    uint32  `json:"Rl"`
+		S     uint32  `json:"S"`
+		Sets  [][]int `json:"sets"` // per RRset, per RRSIG: number of candidates with its key tag
+		Good  []int   `json:"good"` // per RRset: index of the genuinely signed RRSIG, -1 none
+	}
+	var plans []vC12SigPlan
+	if dir := os.Getenv("VERIF_CORPUS"); dir != "" {
+		if b, err := os.ReadFile(dir + "/sig.json"); err == nil {
+			_ = json.Unmarshal(b, &plans)
+		}
+	}
+	for c := 0; c < n+len(plans); c++ {
+		var plan *vC12SigPlan
+		if c < len(plans) && len(plans[c].Sets) > 0 && len(plans[c].Good) == len(plans[c].Sets) {
+			plan = &plans[c]
+		}
 		mode := middleware.RecursionWorkEnforce
 		if r.Intn(4) == 0 {
 			mode = middleware.RecursionWorkShadow
@@ -112,6 +131,13 @@ func TestVerifC12Sig(t *testing.T) {
 		if r.Intn(3) == 0 {
 			K, Rl, S = 4, 8, 32 // the defaults
 		}
+		if plan != nil {
+			K, Rl, S = plan.K, plan.Rl, plan.S
+			mode = middleware.RecursionWorkEnforce
+			if plan.Mode == 1 {
+				mode = middleware.RecursionWorkShadow
+			}
+		}
 		pol := middleware.RecursionWorkPolicy{Mode: mode, MaxOutboundQueries: 128, MaxInternalQueries: 32, MaxDNSKEYCandidates: K,
 			MaxRRsetSignatureChecks: Rl, MaxSignatureChecks: S, MaxDSDigests: 32, MaxNSEC3Hashes: 32, MaxConcurrentCrypto: 32}
 
@@ -119,6 +145,9 @@ func TestVerifC12Sig(t *testing.T) {
 		usedTags := map[uint16]bool{}
 		msg := new(dns.Msg)
 		nsets := 1 + r.Intn(3)
+		if plan != nil {
+			nsets = len(plan.Sets)
+		}
 		var shape []string
 		bound := uint64(0) // sum over RRsets of min(Rl, sum over sigs of min(K, candidates))
 		for s := 0; s < nsets; s++ {
@@ -131,6 +160,9 @@ func TestVerifC12Sig(t *testing.T) {
 			if r.Intn(3) != 0 {
 				goodAt = r.Intn(nsigs)
 			}
+			if plan != nil {
+				nsigs, goodAt = len(plan.Sets[s]), plan.Good[s]
+			}
 			var descs []vC12SigDesc
 			for i := 0; i < nsigs; i++ {
 				sig := &dns.RRSIG{Hdr: dns.RR_Header{Name: owner, Rrtype: dns.TypeRRSIG, Class: dns.ClassINET, Ttl: 300},
@@ -138,6 +170,13 @@ func TestVerifC12Sig(t *testing.T) {
 					Expiration: expir, Inception: incep, SignerName: vC12SigZone}
 				d := vC12SigDesc{sig: sig}
 				ncoll := r.Intn(7) // colliding impostors
+				if plan != nil {
+					// candidates in all: the genuine key counts as one of them
+					ncoll = plan.Sets[s][i]
+					if i == goodAt && ncoll > 0 {
+						ncoll--
+					}
+				}
 				var tag uint16
 				if i == goodAt {
 					pubk, priv, _ := ed25519.GenerateKey(r)
